@@ -777,3 +777,61 @@ def _dumper_convert_last(texts):
     conv = src[a:b]
     texts["dumpers"] = src[:a] + src[b:c] + conv + src[c:]
     return texts
+
+
+# ============================================== R23 / R24 / R25 / R31 tables
+B("c07-row-width-mismatch", ["C07", "C08"], ["R23"],
+  ("parser_spec", "     \"%(day_of_month)02d\", \"day_of_month\"),",
+   "     \"%(day_of_month)03d\", \"day_of_month\"),"), canary=True)
+B("c07-row-group-renamed", ["C07"], ["R23", "R24"],
+  ("parser_spec", "    (r\"MM\", r\"(?P<month_of_year>[0-9][0-9])\",",
+   "    (r\"MM\", r\"(?P<month>[0-9][0-9])\","))
+B("c08-row-property-mismatch", ["C08", "C07"], ["R23"],
+  ("parser_spec", "     \"%(minute_of_hour)02d\", \"minute_of_hour\"),\n    (r\"(?<=^hh:)mm\"",
+   "     \"%(minute_of_hour)02d\", \"minute\"),\n    (r\"(?<=^hh:)mm\""))
+B("c07-utc-key-not-rewritten", ["C07"], ["R23"],
+  ("parsers", "            if key == \"time_zone_utc\" and value == \"Z\":\n"
+              "                time_info.pop(key)\n"
+              "                time_info.update({\"time_zone_hour\": 0,\n"
+              "                                  \"time_zone_minute\": 0})\n"
+              "                continue\n", ""))
+B("c07-year-sign-not-popped", ["C07"], ["R23"],
+  ("parsers", "            if date_info.pop(\"year_sign\", \"+\") == \"-\":",
+   "            if date_info.get(\"year_sign\", \"+\") == \"-\":"))
+B("c20-decade-missing-from-presence-list", ["C07", "C20"], ["R23"],
+  ("parsers", "            for property_ in [\"year\", \"year_of_decade\", \"century\",",
+   "            for property_ in [\"year\", \"century\","))
+B("c07-new-basic-form-shadows", ["C07"], ["R24"],
+  ("parser_spec", "CCYYMMDD\n+XCCYYMMDD  # '+' stands for either '+' or '-'",
+   "CCYYMMDD\nCCYYDDMM\n+XCCYYMMDD  # '+' stands for either '+' or '-'"),
+  canary=True)
+B("c07-untranslated-token", ["C07"], ["R24"],
+  ("parser_spec", "hhmmss,tt\nhhmm,nn", "hhmmss,tt\nhhmm,qq"))
+B("c07-only-basic-ignored", ["C07"], ["R24"],
+  ("parsers", "        if self.allow_only_basic:\n            format_ok_keys = [\"basic\"]",
+   "        if self.allow_only_basic:\n            format_ok_keys = [\"basic\", \"extended\"]"))
+B("c07-extended-form-in-basic-table", ["C07"], ["R24"],
+  ("parser_spec", "        \"reduced\": \"\"\"\n# No Time Zone\nhhmm\nhh\n",
+   "        \"reduced\": \"\"\"\n# No Time Zone\nhhmm\nhh:mm\nhh\n"))
+B("c08-dump-format-seconds-sep", ["C08"], ["R24"],
+  ("data", "                time_string += \":ss\"\n                if seconds_int != self._second_of_minute:",
+   "                time_string += \"ss\"\n                if seconds_int != self._second_of_minute:"),
+  canary=True)
+B("c08-dump-format-ordinal-tail", ["C08"], ["R24"],
+  ("data", "            date_string = year_string + \"-DDD\"", "            date_string = year_string + \"DDD\""))
+B("c07-bad-formats-dropped", ["C07"], ["R25"],
+  ("parsers", "            time_expr, time_info = self.get_time_info(\n"
+              "                time, bad_formats=bad_formats, bad_types=bad_types)",
+   "            time_expr, time_info = self.get_time_info(\n"
+   "                time, bad_types=bad_types)"), canary=True)
+B("c07-basic-does-not-exclude-extended", ["C07"], ["R25"],
+  ("parsers", "            if format_key == \"basic\":\n                bad_formats = [\"extended\"]",
+   "            if format_key == \"basic\":\n                bad_formats = []"))
+B("c09-nested-star-regex", ["C09"], ["R31"],
+  ("parsers", "T(?:(?P<hours>\\d.*)H)?", "T(?:(?P<hours>(?:\\d+,?)+)H)?"), canary=True)
+K("c07k-new-form-fresh-shape",
+  ("parser_spec", "CCYYWwwD\n+XCCYYWwwD\"\"\",", "CCYYWwwD\n+XCCYYWwwD\"\"\",\n        \"other\": \"\"\"\"\"\","),
+  note="an empty extra type key")
+K("c07k-row-regex-respelled",
+  ("parser_spec", "(r\"DD\", r\"(?P<day_of_month>[0-9][0-9])\",",
+   "(r\"DD\", r\"(?P<day_of_month>[0-9]{2})\","))
